@@ -227,41 +227,49 @@ impl Database {
             return Ok(region);
         }
 
-        let layout = self.layout();
-        if layout.find_smallest_adequate_hole(PAGE_SIZE).is_none() {
-            let end = layout.len();
-            drop(layout);
-            self.set_min_len(end + PAGE_SIZE)?;
-        } else {
-            drop(layout);
-        }
+        loop {
+            let layout = self.layout();
+            if layout.find_smallest_adequate_hole(PAGE_SIZE).is_none() {
+                let end = layout.len();
+                drop(layout);
+                self.set_min_len(end + PAGE_SIZE)?;
+            } else {
+                drop(layout);
+            }
 
-        debug!("{}: create_region_if_needed '{}'", self, id);
-        trace!(
-            "{}: create_region_if_needed '{}' acquiring layout_mut",
-            self, id
-        );
-        let mut layout = self.layout_mut();
-        trace!(
-            "{}: create_region_if_needed '{}' acquiring regions_mut",
-            self, id
-        );
-        let mut regions = self.regions_mut();
+            debug!("{}: create_region_if_needed '{}'", self, id);
+            trace!(
+                "{}: create_region_if_needed '{}' acquiring layout_mut",
+                self, id
+            );
+            let mut layout = self.layout_mut();
+            trace!(
+                "{}: create_region_if_needed '{}' acquiring regions_mut",
+                self, id
+            );
+            let mut regions = self.regions_mut();
 
-        if let Some(region) = regions.get_from_id(id).cloned() {
+            if let Some(region) = regions.get_from_id(id).cloned() {
+                return Ok(region);
+            }
+
+            let hole = layout.find_smallest_adequate_hole(PAGE_SIZE);
+            let start = hole.unwrap_or_else(|| layout.len());
+
+            // The allocated area may have grown since the file length was ensured above
+            // (another thread allocated at the end): never place a region beyond the file.
+            if hole.is_none() && start + PAGE_SIZE > self.file_len() {
+                continue;
+            }
+
+            // Create first: if growing the metadata file fails, the hole must stay booked.
+            let region = regions.create(self, id.to_owned(), start)?;
+            if hole.is_some() {
+                layout.remove_or_compress_hole(start, PAGE_SIZE)?;
+            }
+            layout.insert_region(start, &region);
             return Ok(region);
         }
-
-        let hole = layout.find_smallest_adequate_hole(PAGE_SIZE);
-        let start = hole.unwrap_or_else(|| layout.len());
-
-        // Create first: if growing the metadata file fails, the hole must stay booked.
-        let region = regions.create(self, id.to_owned(), start)?;
-        if hole.is_some() {
-            layout.remove_or_compress_hole(start, PAGE_SIZE)?;
-        }
-        layout.insert_region(start, &region);
-        Ok(region)
     }
 
     #[inline]
